@@ -282,7 +282,10 @@ def evaluate(seed, n):
         im = cw.run()
         desc = {"world": w.desc, "scenario": sc}
         if "build_error" in im:
+            # every generated body holds documented constructs only (same-named definitions, @extend_super on any of
+            # them, several bases, mixin classes): a class statement that raises is a failure, not a skipped case
             bump("class definition refused: " + im["build_error"].split(":")[1].strip()[:30])
+            orc("C17")["viol"].append({"law": "a class body of same-named definitions and @extend_super markers cannot be defined", "error": im["build_error"], "scenario": desc})
             continue
         Ks = im["Ks"]
         batch.append(to_model(w, sc, Ks))
